@@ -30,6 +30,14 @@ claimed = {
          "(i) every accepted text of the C02 spaces: Statement.Location() of every statement against the reference reader's line/character-column; (ii) every accepted template of <= 5 (6) pieces over a 14-piece alphabet (tabs, CR LF, multi-byte runes, comments, multi-line strings) with each of ten lexical/syntactic faults injected at every applicable token: the first error line must start with the position of the offending token, backslash or opener; (iii) three module sets re-laid-out in 8 hostile layouts with one semantic fault of 9 kinds at every eligible statement: every file:line:col in any error must be a statement start and the statement the property names must be named.",
          "Trusted: ref/rfcread positions. For cascading lexical faults only the first error line is compared. One known finding (known_findings.json).",
          "DESIGN.md §3 C16"),
+ "C03": ("explicit-state reachability over statement contexts with a reflection bijection oracle",
+         "Breadth-first search over statement contexts starting at module and submodule (one context per reachable keyword, depth <= 5/6); in each of the ~65 contexts each of 81 keywords (all RFC 7950 keywords, the builder's internal field names, an unknown word, a prefixed extension) is tried as a child in a dozen shapes (x1 x2 x3, interleaved with another statement and with extension statements with and without blocks, no argument, every subset of mandatory substatements omitted or doubled), plus every keyword at top level alone and next to a valid module: ~42 k builds. Either Modules.Parse fails, or a reflection walk finds every source statement exactly once under the field tagged with its keyword, in source order, with the right name, parent link and statement reference; must-reject classes must fail.",
+         "Trusted: the reflection walker; the mandatory-substatement table (RFC 7950). An extension statement is treated as a unit.",
+         "DESIGN.md §3 C03"),
+ "C01": ("exhaustive input enumeration in crash-isolated workers (no-crash oracle)",
+         "Five exhaustively enumerated layers (23 M inputs quick): the lexical spaces of C02; every statement tree of <= 3 statements over 81 keywords under module/submodule/top level; cross-reference programs of 1-3 files whose typedefs, groupings, identities, leaves, augments, deviations, imports and includes refer to themselves, each other, undefined names, unknown prefixes and wrong-kind targets, in all load orders; every single-statement edit of 14 seed files. Each input runs through yang.Parse, Modules.Parse, Process and, when clean, ToEntry, GetErrors, a full walk and Find from every node. A panic is caught and reported with the goyang function that raised it; a fatal error (stack overflow, concurrent map access) or a hang kills only the worker and is attributed to the announced case.",
+         "Trusted: process isolation (SetMaxStack 32 MiB, 40 s per-case watchdog). Trees are read only after a clean Process. Inputs beyond the bounded layers are not covered.",
+         "DESIGN.md §3 C01"),
 }
 pending_reason = "check not built yet in this session (see DESIGN.md §12 build order); it will be claimed once its harness exists and is quiet on the unchanged tree"
 not_applicable_reasons = {}
